@@ -287,16 +287,31 @@ def gen_host_cases(ctx):
                     for speed in SPEEDS:
                         for kind in KINDS:
                             grid.append((style, cols, n, loop, speed, kind))
-    if not thorough:
-        # every (style, cols, len, loop) once, speed x kind rotating so that all 12 pairs occur for every style
+    def two_picks(full):
+        # every (style, cols, len, loop) twice, speed x kind rotating so that all 12 pairs occur for every style
         keep = []
         by = {}
-        for g in grid:
+        for g in full:
             by.setdefault(g[:4], []).append(g)
         for j, (k4, lst) in enumerate(sorted(by.items())):
             keep.append(lst[(j * 5) % len(lst)])
             keep.append(lst[(j * 5 + 7) % len(lst)])
-        grid = keep
+        return keep
+    if not thorough:
+        grid = two_picks(grid)
+    else:
+        # thorough: the boundary widths with every speed x schedule, and every other width 1..40 with two picks
+        rest = []
+        for style in STYLES:
+            for cols in range(1, 41):
+                if cols in COLS:
+                    continue
+                for n in len_classes(cols):
+                    for loop in (False, True):
+                        for speed in SPEEDS:
+                            for kind in KINDS:
+                                rest.append((style, cols, n, loop, speed, kind))
+        grid = grid + two_picks(rest)
     for j, (style, cols, n, loop, speed, kind) in enumerate(grid):
         rows = [1, 2, 4][j % 3] if cols <= 20 else [1, 2][j % 2]
         row = (j // 3) % rows
@@ -830,7 +845,7 @@ def run(ctx: C.Ctx):
         "evaluations": len(hcases) + len(dindex) + stats.get("injection_shapes", 0),
         "distinct_nontrivial": h_nt + d_nt,
         "rule": "host: (4 styles x cols in {1,2,3,8,16,20,40} x len in {0,1,cols-1,cols,cols+1,2cols} x loop x speed in {0,1,100} x tick schedule in {ontime,early,late,equal}) "
-                "(quick: two speed/schedule picks per cell, thorough: all), plus seeded random single and multi-animation cases with invalid styles/rows; "
+                "(quick: two speed/schedule picks per cell, thorough: all, plus every other width 1..40 with two picks per cell), plus seeded random single and multi-animation cases with invalid styles/rows; "
                 "device: the same grid, one LCD object per case batched into sketches that share a scripted millis() schedule, plus multi-animation / two-display / run-time-argument sketches; "
                 "tick histories are long enough to contain more than len+2*cols+2 due ticks (non-looping). Non-trivial = at least one frame was drawn by a tick; distinct by (geometry, animations, schedule prefix).",
         "samples": [hcases[0], hcases[len(hcases) // 2], dindex[0][0] if dindex else None],
